@@ -302,59 +302,44 @@ void pp_dbl_lit_k16(fp16_t l, ep_t r, const ep_t p, const ep4_t q) {
 		fp_new(t5);
 		fp_new(t6);
 
-		fp_sqr(t0, p->x);
-		fp_sqr(t1, p->y);
-		fp_sqr(t2, p->z);
-
-		fp_mul(t4, ep_curve_get_b(), t2);
-
-		fp_dbl(t3, t4);
-		fp_add(t3, t3, t4);
-
-		fp_add(t4, p->x, p->y);
-		fp_sqr(t4, t4);
-		fp_sub(t4, t4, t0);
-		fp_sub(t4, t4, t1);
-		fp_add(t5, p->y, p->z);
-		fp_sqr(t5, t5);
-		fp_sub(t5, t5, t1);
-		fp_sub(t5, t5, t2);
-		fp_dbl(t6, t3);
-		fp_add(t6, t6, t3);
-		fp_sub(r->x, t1, t6);
-		fp_mul(r->x, r->x, t4);
-		fp_add(r->y, t1, t6);
-		fp_sqr(r->y, r->y);
-		fp_sqr(t4, t3);
-		fp_dbl(t6, t4);
-		fp_add(t6, t6, t4);
-		fp_dbl(t6, t6);
-		fp_dbl(t6, t6);
-		fp_sub(r->y, r->y, t6);
-		fp_mul(r->z, t1, t5);
-		fp_dbl(r->z, r->z);
-		fp_dbl(r->z, r->z);
-		r->coord = PROJC;
+		/* The k = 16 families are y^2 = x^3 + ax (b = 0): the tangent at
+		 * p = (X : Y : Z), scaled by -Z, is
+		 * (3X^2 + aZ^2)Z * x_q - 2YZ^2 * y_q + 2Y^2Z - (3X^2 + aZ^2)X,
+		 * and q comes negated from the Miller loop. */
+		fp_sqr(t0, p->z);
+		fp_sqr(t1, p->x);
+		fp_dbl(t2, t1);
+		fp_add(t1, t1, t2);
+		fp_mul(t2, ep_curve_get_a(), t0);
+		fp_add(t1, t1, t2);
+		fp_mul(t2, t1, p->x);
+		fp_sqr(t3, p->y);
+		fp_mul(t3, t3, p->z);
+		fp_dbl(t3, t3);
+		fp_sub(t3, t3, t2);
+		fp_mul(t1, t1, p->z);
+		fp_mul(t0, t0, p->y);
+		fp_dbl(t0, t0);
 
 		if (ep4_curve_is_twist() == RLC_EP_MTYPE) {
 			one ^= 1;
 			zero ^= 1;
 		}
 
-		fp4_dbl(l[zero][one], q->x);
-		fp4_add(l[zero][one], l[zero][one], q->x);
-		fp_mul(l[zero][one][0][0], l[zero][one][0][0], t0);
-		fp_mul(l[zero][one][0][1], l[zero][one][0][1], t0);
-		fp_mul(l[zero][one][1][0], l[zero][one][1][0], t0);
-		fp_mul(l[zero][one][1][1], l[zero][one][1][1], t0);
+		fp_mul(l[zero][one][0][0], q->x[0][0], t1);
+		fp_mul(l[zero][one][0][1], q->x[0][1], t1);
+		fp_mul(l[zero][one][1][0], q->x[1][0], t1);
+		fp_mul(l[zero][one][1][1], q->x[1][1], t1);
 
-		fp_sub(l[zero][zero][0][0], t3, t1);
+		fp_copy(l[zero][zero][0][0], t3);
 
-		fp_mul(l[one][one][0][0], q->y[0][0], t5);
-		fp_mul(l[one][one][0][1], q->y[0][1], t5);
-		fp_mul(l[one][one][1][0], q->y[1][0], t5);
-		fp_mul(l[one][one][1][1], q->y[1][1], t5);
+		fp_mul(l[one][one][0][0], q->y[0][0], t0);
+		fp_mul(l[one][one][0][1], q->y[0][1], t0);
+		fp_mul(l[one][one][1][0], q->y[1][0], t0);
+		fp_mul(l[one][one][1][1], q->y[1][1], t0);
 
+		/* The point itself, in homogeneous projective coordinates for any a. */
+		ep_dbl_projc(r, p);
 	}
 	RLC_CATCH_ANY {
 		RLC_THROW(ERR_CAUGHT);
